@@ -1,6 +1,8 @@
 package ssax
 
 import (
+	"go/constant"
+	"go/token"
 	"golang.org/x/tools/go/ssa"
 )
 
@@ -151,22 +153,84 @@ type Guard struct {
 	If     *ssa.If
 }
 
-// Guards lists the conditional edges dominating the block of in (innermost first).
+// Guards lists the conditional edges dominating the block of in (innermost first). A guard whose condition
+// is a phi of boolean constants and one other incoming value (the shape "r = false; break" / "r = e" that an
+// inlined bool helper leaves behind) is followed by the guards it implies: the conditional edges that lead
+// to the only compatible incoming edge, and that edge's value.
 func Guards(in ssa.Instruction) []Guard {
-	b := in.Block()
+	var out []Guard
+	seen := map[*ssa.Phi]bool{}
+	var expand func(g Guard, depth int)
+	expand = func(g Guard, depth int) {
+		out = append(out, g)
+		cond, branch := g.Cond, g.Branch
+		for {
+			u, ok := cond.(*ssa.UnOp)
+			if !ok || u.Op != token.NOT {
+				break
+			}
+			cond, branch = u.X, !branch
+		}
+		phi, ok := cond.(*ssa.Phi)
+		if !ok || seen[phi] || depth > 4 {
+			return
+		}
+		seen[phi] = true
+		live := -1
+		for i, e := range phi.Edges {
+			if c, ok := e.(*ssa.Const); ok && c.Value != nil && c.Value.Kind() == constant.Bool {
+				if constant.BoolVal(c.Value) != branch {
+					continue
+				}
+			}
+			if live >= 0 {
+				return // more than one compatible incoming edge
+			}
+			live = i
+		}
+		if live < 0 {
+			return
+		}
+		pb := phi.Block()
+		pred := pb.Preds[live]
+		stop := pb.Idom()
+		for _, pg := range blockGuards(pred, stop) {
+			expand(pg, depth+1)
+		}
+		if n := len(pred.Instrs); n > 0 {
+			if ifi, ok := pred.Instrs[n-1].(*ssa.If); ok && pred.Succs[0] != pred.Succs[1] {
+				for k, sc := range pred.Succs {
+					if sc == pb {
+						expand(Guard{Cond: ifi.Cond, Branch: k == 0, If: ifi}, depth+1)
+					}
+				}
+			}
+		}
+		if _, isC := phi.Edges[live].(*ssa.Const); !isC {
+			expand(Guard{Cond: phi.Edges[live], Branch: branch, If: g.If}, depth+1)
+		}
+	}
+	for _, g := range blockGuards(in.Block(), nil) {
+		expand(g, 0)
+	}
+	return out
+}
+
+// blockGuards: the conditional edges dominating b, up to and including the terminator of stop.
+func blockGuards(b *ssa.BasicBlock, stop *ssa.BasicBlock) []Guard {
 	var out []Guard
 	for d := b.Idom(); d != nil; d = d.Idom() {
-		if len(d.Instrs) == 0 {
-			continue
-		}
-		ifi, ok := d.Instrs[len(d.Instrs)-1].(*ssa.If)
-		if !ok || d.Succs[0] == d.Succs[1] {
-			continue
-		}
-		for k, s := range d.Succs {
-			if edgeDominates(d, s, b) {
-				out = append(out, Guard{Cond: ifi.Cond, Branch: k == 0, If: ifi})
+		if len(d.Instrs) > 0 {
+			if ifi, ok := d.Instrs[len(d.Instrs)-1].(*ssa.If); ok && d.Succs[0] != d.Succs[1] {
+				for k, s := range d.Succs {
+					if edgeDominates(d, s, b) {
+						out = append(out, Guard{Cond: ifi.Cond, Branch: k == 0, If: ifi})
+					}
+				}
 			}
+		}
+		if d == stop {
+			break
 		}
 	}
 	return out
